@@ -287,6 +287,9 @@ def gen_http():
     n_return = len(re.findall(r"\breturn\b", body))
     n_unwrap = len(re.findall(r"\.unwrap\(\)", body))
     n_expect = len(re.findall(r"\.expect\(", body))
+    # every accepted request reaches the responder: unbounded hand-over channel, blocking send
+    newb = re.sub(r"\s+", "", find_block(src, r"fn\s+new\s*\("))
+    handover = "let(server_tx,server_rx)=channel::<Request>();" in newb and "server_tx.send(request)" in newb and "try_send" not in newb and "sync_channel" not in src
     urls = re.findall(r"format!\(\"\{\}(/\w+/)\{\}\"", src)
     base = re.findall(r"format!\(\"(http://[^\"]*)\"", src)
     # publication semantics of serve_*: `entry(id).or_insert_with(..)` (first wins) or `insert(id, ..)` (last wins)
@@ -314,6 +317,8 @@ def gen_http():
     text += "def httpBaseUrlFormats : List String := [%s]\n" % ", ".join(lean_str(u) for u in base)
     text += "/-- `serve_*`: false = `entry(id).or_insert_with(..)` (first publication wins), true = `insert` (last wins) -/\n"
     text += "def httpServeOverwrites : Bool := %s\n" % overwrite
+    text += "/-- the acceptor hands every request to the responder over an unbounded channel with a blocking send -/\n"
+    text += "def httpEveryRequestReachesResponder : Bool := %s\n" % str(bool(handover)).lower()
     text += "/-- escape hatches inside `respond`: (continue, break, return, unwrap, expect) -/\n"
     text += "def httpRespondExits : Nat × Nat × Nat × Nat × Nat := (%d, %d, %d, %d, %d)\n" % (
         n_continue, n_break, n_return, n_unwrap, n_expect)
@@ -437,6 +442,21 @@ def gen_sync():
     text += "def parentRelayAlways : Bool := %s\n" % str(relay_always).lower()
     text += "/-- the handlers apply the link only if it differs, by `set_parent(p)` followed by `add_child` on p -/\n"
     text += "def parentHandlerPair : Bool := %s\n" % str(handler_pair).lower()
+    # the send loops drain the whole queue: every popped change is sent (the only `continue` is the serialisation error arm),
+    # and the receive loops handle every message they pop (no `break`, no early `return` from the loop)
+    drains = True
+    for src_, fn_, sender in ((st, "react_on_changed_components", "server.send_message("), (ct, "react_on_changed_components", "client.send_message(")):
+        b = ns(fn_body(src_, fn_))
+        i0 = b.find("whileletSome(change)=track.changed_components_to_send.pop_front(){")
+        drains = drains and i0 >= 0 and "break" not in b and b.count("continue;") == 1 and "return" not in b and sender in b[i0:]
+    handles_all = True
+    for src_ in (sr, cr):
+        b = ns(fn_body(src_, "poll_for_messages"))
+        handles_all = handles_all and ("whileletSome(message)=client.receive_message(DefaultChannel::ReliableOrdered){" in b or "whileletSome(message)=server.receive_message(client_id,DefaultChannel::ReliableOrdered){" in b) and "break;" not in b and "break}" not in b
+    text += "/-- both `react_on_changed_components` send every change they pop from the queue -/\n"
+    text += "def reactDrainsWholeQueue : Bool := %s\n" % str(drains).lower()
+    text += "/-- both `poll_for_messages` handle every message they take from the channel (no `break` in the receive loop) -/\n"
+    text += "def recvHandlesEveryMessage : Bool := %s\n" % str(handles_all).lower()
     text += FOOTER
     write("Sync.lean", text)
 
@@ -520,6 +540,9 @@ def gen_fix():
         without = re.findall(r"Without<(\w+)>", sig)
         body = fn_body(src, n)
         inserts = [c for c in re.findall(r"\.insert\(\s*(\w+)::", body)]
+        # every entity the query yields is treated alike: one loop over the query, no condition, no way out of the loop
+        if re.search(r"\b(if|match|continue|break|return|while)\b", body) or len(re.findall(r"\bfor\b", body)) != 1:
+            raise TranslateError("bundle_fix: %s treats the entities of its query differently (condition or early exit in the body)" % n)
         if len(added) != 1 or added[0] not in kinds or not without or any(w not in comps for w in without) or any(i not in comps for i in inserts):
             raise TranslateError("bundle_fix: %s has an unexpected shape (added=%r without=%r inserts=%r)" % (n, added, without, inserts))
         rows.append((kinds[added[0]], inserts, without))
